@@ -54,6 +54,22 @@ def main(path):
             print(json.dumps(p, indent=1))
         print('reproduced' if pr else 'not reproduced on the current tree')
         return 1 if pr else 0
+    if kind == 'solver':
+        import solver
+        o = d['observed']
+        which, cid = o['case'].split('/', 1)
+        if which == 'd1':
+            st, pr = solver.run_d1(o['cfg'], '^' + re.escape(cid) + '$', solver.corpus_items(corpus.quick_corpus(seed), (cid.split('/', 1)[-1],)))
+            if not st['items']:
+                print('item %s is not among the probe items' % cid)
+                return 2
+        else:
+            st, pr = solver.run_d2(o['cfg'])
+            pr = [p for p in pr if p['case'] == o['case']]
+        for p in pr[:5]:
+            print(json.dumps(p, indent=1))
+        print('reproduced' if pr else 'not reproduced on the current tree')
+        return 1 if pr else 0
     if kind == 'correspondence':
         o = d['disagreement']
         cases = [c for c in corpus.quick_corpus(seed) if c[0] == o['case']]
